@@ -13,6 +13,21 @@ def prop(pid, **kw):
     PROPS[pid] = kw
 
 
+prop('C01',
+     title='Calendar, ordinal, ISO-week and day-count forms of a date agree',
+     verus=['date'],
+     kani=['vk_year_flags_table', 'vk_year_flags_derived', 'vk_mdf_tables', 'vk_mdf_from_ol_with', 'vk_date_bits', 'vk_date_consts',
+           'vk_date_from_ordinal_and_flags', 'vk_date_from_yo_opt', 'vk_date_from_ymd_opt', 'vk_date_accessors', 'vk_date_weekday',
+           'vk_date_forms_unique', 'vk_date_iso_week', 'vk_date_isoywd_sound', 'vk_date_isoywd_complete', 'vk_isoweek_ord',
+           'vk_date_succ_pred', 'vk_date_ord_lex'],
+     uncovered=['deprecated panicking constructors from_ymd/from_yo/from_isoywd/from_num_days_from_ce/succ/pred (expect wrappers)',
+                'Date<Tz> (deprecated)', 'Datelike::num_days_from_ce provided method for types other than NaiveDate'],
+     text='Kani proves, over full i32/u32 argument domains and every valid packed date, the bit-packed/table kernel '
+          '(YEAR_TO_FLAGS, MDL_TO_OL, OL_TO_MDL, from_ymd_opt, from_yo_opt, from_isoywd_opt both directions, accessors, weekday, iso_week, '
+          'succ/pred, derived Ord) against an independent proleptic-Gregorian spec; Verus proves the day-count arithmetic '
+          '(from_num_days_from_ce_opt, num_days_from_ce, YEAR_DELTAS, cycle conversions) against days_before_year and the lemmas that join them '
+          '(day number strictly monotone in (year, ordinal), 400-year weekday periodicity, successor = next day).')
+
 prop('C06',
      title='Durations are exact signed nanosecond counts within a closed range',
      verus=['timedelta'],
@@ -43,7 +58,6 @@ prop('C19',
 
 # properties not (or not yet) claimed: every id of properties.jsonl is either in PROPS or here
 NOT_APPLICABLE = {
-    'C01': 'not built yet (planned: Kani packed-date kernel + Verus day-count unit)',
     'C02': 'not built yet', 'C03': 'not built yet', 'C04': 'not built yet', 'C05': 'not built yet',
     'C07': 'not built yet', 'C08': 'not built yet', 'C10': 'not built yet', 'C12': 'not built yet',
     'C14': 'not built yet', 'C15': 'not built yet', 'C16': 'not built yet', 'C17': 'not built yet',
